@@ -519,7 +519,12 @@ class C07(Check):
     def cases(self, rng: random.Random, tier: str) -> Iterable[Case]:
         out = corpus()
         # exhaustive: every pair of tags the export code knows, plus unknown tags
-        tags = T.extract(REPO)['validTags'] + ['Glyph', 'Foo', '']
+        try:
+            valid = T.extract(REPO)['validTags']
+        except Exception:      # source shape not understood: already reported as a broken translator by the pipeline;
+            import pagexml.model.xml as _X     # the cases are still built (from the tags the module itself lists) so
+            valid = sorted(_X.VALID_TAGS)      # that the failing-input search runs on the real code
+        tags = list(valid) + ['Glyph', 'Foo', '']
         for p in tags:
             for c in tags:
                 out.append(Case('rules', {'parent': p, 'child': c}, ['rules']))
